@@ -118,7 +118,20 @@ def _scope_file_cases(ctx: Ctx, n: int) -> list[dict]:
                           p_dict=0.5, p_list=0.1)
         paths = [list(p) for p in gen.all_paths(t) if all(isinstance(k, str) for k in p)]
         for p in rng.sample(paths, min(3, len(paths))) + [["nope"], ["a", "nope"]]:
-            cases.append({"kind": "readscope", "t": enc(t), "p": [enc_key(k) for k in p]})
+            t2 = t
+            sub = None
+            try:
+                sub = gen.get_path(t, tuple(p))
+            except Exception:  # noqa: BLE001
+                pass
+            if isinstance(sub, dict) and rng.random() < 0.6 and "width" not in t:
+                # the addressed sub-dict refers to keys outside it (top level and a sibling dict)
+                t2 = copy.deepcopy(t)
+                t2["width"] = 4
+                t2["zz_sibling"] = {"depth": 3}
+                s2 = gen.get_path(t2, tuple(p))
+                s2["w2"] = "$width"; s2["area"] = "$width * 7"; s2["vol"] = "$width * $depth + 1"
+            cases.append({"kind": "readscope", "t": enc(t2), "p": [enc_key(k) for k in p]})
     return cases
 
 
